@@ -179,10 +179,52 @@ func runC10(c *report.Ctx) {
 		if t.f == nil || hist == nil {
 			continue
 		}
+		// the two flips may share one helper that takes the direction as an argument: judge the helper under the
+		// constant arguments this wrapper passes
+		ef := t.f
+		bind := map[*ssa.Parameter]string{}
+		if len(fieldStores(t.f, hist, "withdrawn")) == 0 {
+			var only *ssa.Call
+			cnt := 0
+			an.Instrs(t.f, func(in ssa.Instruction) {
+				if call, ok := in.(*ssa.Call); ok {
+					if g := call.Call.StaticCallee(); g != nil && g.Blocks != nil && an.FuncPkg(g) != nil && an.FuncPkg(g).Path() == pkgTxmgr {
+						only = call
+						cnt++
+					}
+				}
+			})
+			if cnt == 1 && len(fieldStores(only.Call.StaticCallee(), hist, "withdrawn")) > 0 {
+				ef = only.Call.StaticCallee()
+				for i, a := range only.Call.Args {
+					if k, isK := a.(*ssa.Const); isK && k.Value != nil && i < len(ef.Params) {
+						bind[ef.Params[i]] = k.Value.ExactString()
+					}
+				}
+			}
+		}
+		valOf := func(v ssa.Value) string {
+			if par, ok := v.(*ssa.Parameter); ok {
+				if s, ok := bind[par]; ok {
+					return s
+				}
+			}
+			if u, ok := v.(*ssa.UnOp); ok && u.Op == token.NOT {
+				if par, ok := u.X.(*ssa.Parameter); ok {
+					switch bind[par] {
+					case "true":
+						return "false"
+					case "false":
+						return "true"
+					}
+				}
+			}
+			return p.Desc(v)
+		}
 		// success passes Bucket.Delete and Bucket.Put
 		for _, m := range []string{"Delete", "Put"} {
 			mm := m
-			w := p.MustPassOnSuccess(t.f, func(in ssa.Instruction) bool {
+			w := p.MustPassOnSuccess(ef, func(in ssa.Instruction) bool {
 				cc := an.CallOf(in)
 				return cc != nil && cc.IsInvoke() && cc.Method.Name() == mm && isBucketIface(cc.Value.Type())
 			})
@@ -199,8 +241,8 @@ func runC10(c *report.Ctx) {
 		}
 		// the withdrawn flag is set to `first` for the lookup key and to `end` for the new key
 		var vals []string
-		for _, st := range fieldStores(t.f, hist, "withdrawn") {
-			vals = append(vals, p.Desc(st.(*ssa.Store).Val))
+		for _, st := range fieldStores(ef, hist, "withdrawn") {
+			vals = append(vals, valOf(st.(*ssa.Store).Val))
 		}
 		key := sk(t.f) + ":withdrawn-flip"
 		if len(vals) == 2 && vals[0] == t.first && vals[1] == t.end {
